@@ -210,7 +210,15 @@ Record forop := mkFor {
   f_body : list sop;
   f_yield : list value }.
 
-Inductive op := Simple (o : sop) | For (f : forop).
+(* a loop whose body contains loops (second nesting level) *)
+Inductive bop := BSimple (o : sop) | BFor (f : forop).
+Record forop2 := mkFor2 {
+  g_lb : value; g_ub : value; g_step : option value;
+  g_iters : list value; g_res : list value; g_bargs : list value;
+  g_body : list bop;
+  g_yield : list value }.
+
+Inductive op := Simple (o : sop) | For (f : forop) | For2 (g : forop2).
 
 Definition sop_operands (o : sop) : list value := s_ins o ++ map fst (s_io o).
 Definition sop_results (o : sop) : list value := s_outs o ++ map snd (s_io o).
@@ -259,8 +267,38 @@ Definition allocate_for (c : cfg) (f : forop) (a : astate) : res astate :=
   let a9 := fold_left (fun a v => free_value v a) (firstn 1 (f_bargs f)) a8 in
   allocate_value c (f_lb f) a9.
 
+(* the same for a loop nest of depth two.  _live_ins_per_block of the outer body: for an inner loop
+   operation its results are removed, its operands (lb, ub, step, iter_args) added, then the live-ins
+   of its body *)
+Definition for_operands (f : forop) : list value :=
+  f_lb f :: f_ub f :: (match f_step f with Some s => [s] | None => [] end) ++ f_iters f.
+Definition live_ins_body2 (g : forop2) : list value :=
+  let s0 := oset_update [] (g_yield g) in
+  let s1 := fold_left (fun s b =>
+              match b with
+              | BSimple o => oset_update (oset_diff s (sop_results o)) (sop_operands o)
+              | BFor f => oset_update (oset_update (oset_diff s (f_res f)) (for_operands f)) (live_ins_body f)
+              end) (rev (g_body g)) s0 in
+  oset_diff s1 (g_bargs g).
+Definition allocate_bop (c : cfg) (b : bop) (a : astate) : res astate :=
+  match b with BSimple o => allocate_sop c o a | BFor f => allocate_for c f a end.
+Definition allocate_for2 (c : cfg) (g : forop2) (a : astate) : res astate :=
+  do a1 <- fold_res (allocate_value c) (live_ins_body2 g) a;
+  do a2 <- fold_res allocate_values_same_reg
+             (zip4 (tl (g_bargs g)) (g_iters g) (g_yield g) (g_res g)) a1;
+  do a3 <- fold_res (allocate_value c) (firstn 1 (g_bargs g)) a2;
+  do a4 <- allocate_value c (g_ub g) a3;
+  do a5 <- match g_step g with Some s => allocate_value c s a4 | None => Ok a4 end;
+  let regs := somes (map (ty a5) (g_iters g)) in
+  let a6 := set_stk a5 (fold_left (fun s r => reserve_register r s) regs (stk a5)) in
+  do a7 <- fold_res (allocate_bop c) (rev (g_body g)) a6;
+  do s8 <- fold_res unreserve_register regs (stk a7);
+  let a8 := set_stk a7 s8 in
+  let a9 := fold_left (fun a v => free_value v a) (firstn 1 (g_bargs g)) a8 in
+  allocate_value c (g_lb g) a9.
+
 Definition allocate_op (c : cfg) (o : op) (a : astate) : res astate :=
-  match o with Simple s => allocate_sop c s a | For f => allocate_for c f a end.
+  match o with Simple s => allocate_sop c s a | For f => allocate_for c f a | For2 g => allocate_for2 c g a end.
 Definition allocate_block (c : cfg) (l : list op) (a : astate) : res astate :=
   fold_res (allocate_op c) (rev l) a.
 
@@ -274,7 +312,11 @@ Record func := mkFunc {
 Definition ty0 (fn : func) : value -> option Z := fun v => nth v (fn_pre fn) None.
 
 Definition all_sops (l : list op) : list sop :=
-  flat_map (fun o => match o with Simple s => [s] | For f => f_body f end) l.
+  flat_map (fun o => match o with
+                     | Simple s => [s]
+                     | For f => f_body f
+                     | For2 g => flat_map (fun b => match b with BSimple s => [s] | BFor f => f_body f end) (g_body g)
+                     end) l.
 
 (* get_constant_value(v) is not None and == 0: forward pass over the defining operations *)
 Definition zero_consts (l : list sop) : list value :=
